@@ -51,6 +51,21 @@ Rule added after the fifth seeding round (the constructors had not been read at 
              its own datetime parameter as the origin (own attributes written earlier on the path resolved), the
              period of the samples it writes (config.resampling_period on a path that builds a Resampler(config),
              a timedelta parameter otherwise) and a container of ceil(span / that same period) slots.
+Clauses added after the sixth seeding round:
+  C09.VALID  at(): the gap test that licenses a raw storage read addresses the slot that is read: its argument is the
+             normalised timestamp of the position (a datetime already on the grid may be passed as it is, a raw key only
+             if is_missing() normalises by itself) -- gap boundaries lie on the grid, the test is a plain interval test.
+  C09.COUNT  the window's own reports: MovingWindow.count_valid / count_covered / oldest_timestamp / newest_timestamp
+             return the ring buffer's observer of the same role (the attribute holding the ring bound by what
+             MovingWindow stores there); window() forwards its parameters to the ring's parameters of the same name.
+Rule added for finding F23 (a rejected sample ended the window's update task):
+  C09.REJECT the exception class(es) update() raises on its rejection paths (read from update()'s own paths) cannot leave
+             a loop that feeds a MovingWindow's ring buffer: at every call of the ring's update() in the class (followed
+             through helpers to their callers) a handler for that class or a superclass encloses the call inside the
+             loop body and goes on with the loop on every way through it (control-flow graph of the handler: no re-raise,
+             break, return), or an `if` inside the iteration has established that the timestamp is not older than the
+             oldest slot / the buffer is empty.  A handler outside the loop is reported.  A function that lets the
+             exception through and is handed on as a callback (the resampler's sink) is noted as not decided.
 The gap-list/data consistency over all histories is NOT decided (that the walk of _cleanup_gaps leaves a
 sorted, disjoint list is the inductive part; every single step is decided).
 """
@@ -59,6 +74,7 @@ from __future__ import annotations
 import ast
 from typing import Any
 
+from ..engine.cfg import CFG, exc_class_name, handler_catches, handler_classes
 from ..engine.normalize import ANCHOR_NAMES, inline_helpers, positional
 from ..engine.report import AnalysisError, Run
 from ..engine.resolver import FuncInfo, Program, dotted, walk_no_nested
@@ -786,6 +802,32 @@ def _nonzero(p: Path, n: str) -> bool:
     return any(decided(p, key) is pol for key, pol in tests)
 
 
+def _gap_test_normalises(prog: Program) -> bool:
+    """Does OrderedRingBuffer.is_missing() bring its argument onto the slot grid by itself?  (Yes iff its timestamp
+    parameter is read nowhere but as the argument of self.normalize_timestamp(): then what it answers depends on the
+    normalised timestamp only and a caller may pass a raw datetime.)"""
+    fn = prog.resolve_method(_ring(prog), "is_missing")
+    if fn is None:
+        raise AnalysisError("OrderedRingBuffer.is_missing not found")
+    ps = func_params(fn.node)
+    if not ps:
+        raise AnalysisError(f"{fn.qual}: no timestamp parameter")
+    ts = ps[0]
+    wrapped: set[int] = set()
+    for c in ast.walk(fn.node):
+        if isinstance(c, ast.Call) and method_call(c, "self", "normalize_timestamp") and len(c.args) == 1 \
+                and not c.keywords and isinstance(c.args[0], ast.Name) and c.args[0].id == ts:
+            wrapped.add(id(c.args[0]))
+    reads = [n for n in ast.walk(fn.node) if isinstance(n, ast.Name) and n.id == ts and isinstance(n.ctx, ast.Load)]
+    # `T = self.normalize_timestamp(T)` as an unconditional statement of the body: every later read is on the grid
+    for s in fn.node.body:
+        if isinstance(s, ast.Assign) and len(s.targets) == 1 and u(s.targets[0]) == ts and isinstance(s.value, ast.Call) \
+                and s.value.args and id(s.value.args[0]) in wrapped:
+            reads = [n for n in reads if n.lineno < s.lineno or any(n is x for x in ast.walk(s))]
+            break
+    return bool(reads) and all(id(n) in wrapped for n in reads)
+
+
 def check_valid_at(run: Run, prog: Program) -> None:  # noqa: C901
     """MovingWindow.at: every buffer read is range-checked on both sides, exactly against the covered range."""
     at = prog.func(f"{MW}:MovingWindow.at")
@@ -849,13 +891,36 @@ def check_valid_at(run: Run, prog: Program) -> None:  # noqa: C901
                           "a read is possible on an empty buffer", node=at.node, file=at.file, path=p.describe())
                 # the raw storage is read only for a slot that is established not to lie in a gap: slots skipped by a jump
                 # ahead are recorded in the gap list but keep the value evicted from them
+                # ... and the gap test addresses the slot the read addresses: gap boundaries lie on the slot grid and the
+                # test is a plain interval test, so its argument is the *normalised* timestamp of the position read
+                # (to_internal_index() normalises by itself); a datetime that is already on the grid (get_timestamp(),
+                # normalize_timestamp()) may be passed as it is, a raw key only if is_missing() normalises on its own
+                raw_test = None
                 if kind == "index":
                     # get_timestamp() yields a slot-grid timestamp; normalising it again changes nothing
                     cands = [f"{buf}.is_missing({buf}.get_timestamp({u(k)}))",
                              f"{buf}.is_missing({buf}.normalize_timestamp({buf}.get_timestamp({u(k)})))"]
                 else:
-                    cands = [f"{buf}.is_missing({u(k)})", f"{buf}.is_missing({buf}.normalize_timestamp({u(k)}))"]
+                    cands = [f"{buf}.is_missing({buf}.normalize_timestamp({u(k)}))"]
+                    on_grid = isinstance(k, ast.Call) and any(method_call(k, buf, m) for m in sorted(ALIGNED_CALLS))
+                    if on_grid or _gap_test_normalises(prog):
+                        cands.append(f"{buf}.is_missing({u(k)})")
+                    else:
+                        raw_test = f"{buf}.is_missing({u(k)})"
                 no_gap = any(truth(p, c) is False for c in cands)
+                if not no_gap and raw_test is not None and truth(p, raw_test) is False:
+                    run.violation(
+                        "C09.VALID", at.qual, f"gap test and storage read address the same slot ({kind} key)",
+                        f"the gap list is consulted with the key as given, `{raw_test[:70]}`, while `{u(sub)[:70]}` reads the slot "
+                        "the key is *normalised* onto: gap boundaries lie on the slot grid and the gap test is a plain interval "
+                        "test, so for a key off the grid the two address different slots -- a key less than half a period "
+                        "before a gap rounds onto the gap's first slot, is judged `not missing`, and at() returns the value "
+                        "evicted from that slot (or unwritten memory) where window() returns the fill value; a key in the "
+                        "last half period of a gap rounds onto the valid slot after it and at() returns NaN for a stored "
+                        "value.  Both sites must go through the same normalised timestamp (is_missing(normalize_timestamp("
+                        "key)) or one local holding it); the same holds for a test on a shifted or otherwise derived raw key",
+                        node=at.node, file=at.file, path=p.describe())
+                    continue
                 run.check(no_gap, "C09.VALID", at.qual, f"raw read of a covered slot only when it is not in a gap ({kind} key)",
                           f"`{u(sub)[:70]}` reads the raw storage for a covered slot without the gap list having been consulted "
                           "(is_missing(<that slot's timestamp>) false on the path): a slot skipped by a jump ahead (capacity 5, "
@@ -1356,6 +1421,82 @@ def check_count(run: Run, prog: Program) -> None:  # noqa: C901
                   "slots covered by gaps inside the window (0 on a buffer never written)", **_where(cv, p))
     if n < 3:
         raise AnalysisError(f"{cv.qual}: only {n} returning paths")
+    check_facade(run, prog)
+
+
+FACADE_REPORTS = {
+    "count_valid": "the number of slots of the window that hold a valid value (covered slots minus the slots in gaps)",
+    "count_covered": "the number of slots from the oldest to the newest valid one, holes included",
+    "oldest_timestamp": "the timestamp of the oldest valid slot",
+    "newest_timestamp": "the timestamp of the newest slot",
+}
+
+
+def _ring_attr(prog: Program) -> str:
+    """The attribute in which MovingWindow keeps the ring buffer it builds (bound by what is stored, not by name)."""
+    mw, ring = prog.cls(f"{MW}:MovingWindow"), _ring(prog)
+    attrs: set[str] = set()
+    for fn in mw.methods.values():
+        for s in ast.walk(fn.node):
+            if isinstance(s, (ast.Assign, ast.AnnAssign)) and isinstance(s.value, ast.Call) and _builds(prog, fn, s.value, ring):
+                for t in (s.targets if isinstance(s, ast.Assign) else [s.target]):
+                    if isinstance(t, ast.Attribute) and u(t.value) == "self":
+                        attrs.add(t.attr)
+    if len(attrs) != 1:
+        raise AnalysisError(f"C09.COUNT: cannot tell in which attribute MovingWindow keeps its ring buffer ({sorted(attrs)})")
+    return next(iter(attrs))
+
+
+def check_facade(run: Run, prog: Program) -> None:
+    """C09.COUNT (the window's own reports): MovingWindow answers count_valid / count_covered / oldest_timestamp /
+    newest_timestamp with the ring buffer's observer of the *same* role (whose meaning the clauses above decide), on
+    every returning path; a query by window() forwards each of its parameters to the ring's parameter of that name."""
+    mw, ring = prog.cls(f"{MW}:MovingWindow"), _ring(prog)
+    buf = f"self.{_ring_attr(prog)}"
+    for name, meaning in FACADE_REPORTS.items():
+        fn, src = prog.resolve_method(mw, name), prog.resolve_method(ring, name)
+        if fn is None or fn.cls is not mw:
+            if name.startswith("count_"):
+                raise AnalysisError(f"MovingWindow.{name} not found")
+            continue
+        if src is None:
+            raise AnalysisError(f"OrderedRingBuffer.{name} not found")
+        run.analysed(fn.qual)
+        is_prop = any(u(d) in ("property", "functools.cached_property", "cached_property") for d in src.node.decorator_list)
+        want = f"{buf}.{name}" + ("" if is_prop else "()")
+        n = 0
+        for p in ordered_paths(prog, fn):
+            if p.exit != "return":
+                continue
+            n += 1
+            got = u(p.ret) if p.ret is not None else "None"
+            other = next((o for o in FACADE_REPORTS if o != name and got in (f"{buf}.{o}", f"{buf}.{o}()")), None)
+            run.check(got == want, "C09.COUNT", fn.qual, f"MovingWindow.{name} reports {want} [{got[:60]}]",
+                      f"MovingWindow.{name} answers with `{got[:80]}` instead of the ring buffer's `{name}`"
+                      + (f" -- that is `{other}`, {FACADE_REPORTS[other]}, where `{name}` is {meaning}: the two agree only "
+                         "while the covered range has no hole (dense in-order stream), so after a jump ahead or a None/NaN "
+                         "sample the window reports a count / bound that contradicts the content window() returns"
+                         if other else f" ({meaning})")
+                      + "; every report of the window must be the ring buffer's observer of the same role (the same for "
+                      "count_valid <-> count_covered, oldest <-> newest swapped, a capacity or a constant in its place)",
+                      **_where(fn, p))
+        if not n:
+            raise AnalysisError(f"{fn.qual}: no returning path")
+    # the slice query: parameters forwarded by name (decided when the answer is the ring's window() call itself)
+    fn, src = prog.resolve_method(mw, "window"), prog.resolve_method(ring, "window")
+    if fn is None or src is None:
+        raise AnalysisError("MovingWindow.window / OrderedRingBuffer.window not found")
+    run.analysed(fn.qual)
+    shared = [x for x in func_params(src.node) if x in func_params(fn.node)]
+    for p in ordered_paths(prog, fn):
+        r = p.ret
+        if p.exit != "return" or not (isinstance(r, ast.Call) and method_call(r, buf, "window")):
+            continue
+        args = _bound_args(prog, r)
+        bad = [(x, u(args[x]) if x in args else "<default>") for x in shared if x not in args or u(args[x]) != x]
+        run.check(not bad, "C09.COUNT", fn.qual, f"return {buf}.window({', '.join(f'{x}={x}' for x in shared)})",
+                  f"MovingWindow.window hands the ring buffer {', '.join(f'`{x}`=`{g[:40]}`' for x, g in bad)}: the query the "
+                  "caller asked for (bounds, fill value, copy) is not the one answered", **_where(fn, p))
 
 
 NONE_SCOPE = ["update", "window", "get_timestamp", "to_internal_index", "oldest_timestamp", "newest_timestamp",
@@ -2393,6 +2534,273 @@ def check_conf(run: Run, prog: Program) -> None:
     check_conf_builders(run, prog)
 
 
+# --------------------------------------------------------------------------------------------- C09.REJECT
+def _rejection_classes(run: Run, prog: Program) -> set[str]:
+    """Exception classes OrderedRingBuffer.update() raises on its rejection paths (the timestamp was decided to be
+    older than the oldest slot of a non-empty window), read from update()'s own paths."""
+    up = prog.func(f"{BUF}:OrderedRingBuffer.update")
+    out: set[str] = set()
+    for p in ordered_paths(prog, up):
+        if p.exit == "raise" and not _is_assertion(p) and any(o for _i, _t, o in _too_old_marks(p)) \
+                and not _empty_before(p, None):
+            name = exc_class_name(p.ret)
+            if name is None:
+                raise AnalysisError(f"{up.qual}: cannot read the class of `raise {u(p.ret)[:60]}`")
+            out.add(name)
+    return out
+
+
+def _parents(root: ast.AST) -> dict[int, ast.AST]:
+    out: dict[int, ast.AST] = {}
+    for n in ast.walk(root):
+        for c in ast.iter_child_nodes(n):
+            out[id(c)] = n
+    return out
+
+
+def _catches(h: ast.ExceptHandler, raised: str) -> str:
+    classes = handler_classes(h)
+    if classes is None or raised in classes:
+        return "yes"
+    return handler_catches(h, "E", raised)
+
+
+_LOOPS = (ast.For, ast.AsyncFor, ast.While)
+_FUNCS = (ast.FunctionDef, ast.AsyncFunctionDef, ast.Lambda)
+
+
+def _in_block(block: list[ast.stmt], node: ast.AST) -> bool:
+    return any(node is x for s in block for x in ast.walk(s))
+
+
+def _rejection_impossible(test: ast.AST, holds: bool, ts: str, buf: str, alias: dict[str, str]) -> bool:
+    """Does knowing that `test` is `holds` entail that update() cannot reject: the buffer is empty (oldest bound
+    None) or the sample's timestamp is not older than the oldest stored slot?  (normalize_timestamp is monotone and
+    leaves the aligned oldest slot alone, so the raw timestamp may be compared.)"""
+    oldest = {f"{buf}.oldest_timestamp", f"{buf}.time_bound_oldest", f"{buf}._timestamp_oldest"}
+
+    def t(e: ast.AST) -> str:
+        return alias.get(u(e), u(e))
+    if isinstance(test, ast.UnaryOp) and isinstance(test.op, ast.Not):
+        return _rejection_impossible(test.operand, not holds, ts, buf, alias)
+    if isinstance(test, ast.BoolOp):
+        conj = isinstance(test.op, ast.And) == holds      # every operand has that value / at least one has
+        sub = [_rejection_impossible(v, holds, ts, buf, alias) for v in test.values]
+        return any(sub) if conj else all(sub)
+    if isinstance(test, ast.Compare) and len(test.ops) == 1:
+        a, op, b = t(test.left), test.ops[0], t(test.comparators[0])
+        if isinstance(op, (ast.Is, ast.IsNot)) and {a, b} & {f"{buf}.oldest_timestamp"} and "None" in (a, b):
+            return isinstance(op, ast.Is) == holds
+        if a == ts and b in oldest:
+            return isinstance(op, ast.GtE) and holds or isinstance(op, ast.Lt) and not holds
+        if b == ts and a in oldest:
+            return isinstance(op, ast.LtE) and holds or isinstance(op, ast.Gt) and not holds
+    return False
+
+
+def _leaves(stmts: list[ast.stmt]) -> bool:
+    return bool(stmts) and isinstance(stmts[-1], (ast.Continue, ast.Return, ast.Raise, ast.Break))
+
+
+class _Escape:
+    """Where does an exception of class `raised`, raised by the expression `site` inside function `fn`, go?"""
+
+    def __init__(self, fn: ast.AST, file: str) -> None:
+        self.fn = fn
+        self.file = file
+        self.parents = _parents(fn)
+        self._cfg: CFG | None = None
+
+    @property
+    def cfg(self) -> CFG:
+        if self._cfg is None:
+            self._cfg = CFG(self.fn, self.file)   # type: ignore[arg-type]
+        return self._cfg
+
+    def chain(self, site: ast.AST) -> list[tuple[ast.AST, ast.AST]]:
+        """(ancestor, child through which the site is reached), innermost first, up to the function."""
+        out, cur = [], site
+        while cur is not self.fn:
+            par = self.parents.get(id(cur))
+            if par is None:
+                raise AnalysisError(f"C09.REJECT: `{u(site)[:60]}` is not inside the function that is read")
+            out.append((par, cur))
+            cur = par
+        return out
+
+    def handler_leaves(self, h: ast.ExceptHandler, loop: ast.AST | None) -> list[str] | None:
+        """None if every way through the handler goes on with the loop (without a loop: completes or returns
+        normally); else a description of a way that leaves the loop (re-raise / break / return)."""
+        g = self.cfg
+        explicit = lambda a, b, lab: not lab.startswith("exc:") or isinstance(g.nodes[a].ast, ast.Raise)  # noqa: E731
+        heads = g.nodes_of(h)
+        if not heads:
+            raise AnalysisError(f"C09.REJECT: handler at line {h.lineno} not found on the control-flow graph")
+        if loop is None:
+            bad = {g.raise_exit}
+            avoid: set[int] = set()
+        else:
+            inside = {id(x) for st in loop.body for x in ast.walk(st)}  # type: ignore[attr-defined]
+            avoid = set(g.nodes_of(loop))
+            bad = {n.id for n in g.nodes if n.id not in avoid and (n.ast is None or id(n.ast) not in inside)} - {g.entry}
+        for hn in heads:
+            pth = g.path(hn, bad, avoid=avoid, edge_ok=explicit)
+            if pth is not None:
+                return g.describe_path(pth)
+        return None
+
+    def pretested(self, site: ast.Call, buf: str, top: ast.AST | None) -> bool:
+        """An `if` on the way to the call (enclosing, or an earlier guard statement that leaves) makes the rejection
+        impossible; only tests inside the loop iteration (`top` = the loop) count: an older test is stale."""
+        if len(site.args) != 1 or site.keywords:
+            return False
+        ts = f"{u(site.args[0])}.timestamp"
+        alias: dict[str, str] = {}
+        facts: list[tuple[ast.AST, bool]] = []
+        for par, child in self.chain(site):
+            for field in ("body", "orelse", "finalbody"):
+                block = getattr(par, field, None)
+                if not isinstance(block, list) or not any(child is x for x in block):
+                    continue
+                for st in block:
+                    if st is child:
+                        break
+                    if isinstance(st, ast.If) and not st.orelse and _leaves(st.body):
+                        facts.append((st.test, False))
+                    elif isinstance(st, ast.Assign) and len(st.targets) == 1 and isinstance(st.targets[0], ast.Name):
+                        alias[st.targets[0].id] = u(st.value)
+                if isinstance(par, ast.If):
+                    facts.append((par.test, field == "body"))
+            if par is top:
+                break
+        return any(_rejection_impossible(t, holds, ts, buf, alias) for t, holds in facts)
+
+    def decide(self, site: ast.AST, raised: str) -> tuple[str, str, list[str] | None]:
+        """('swallowed' | 'ends-loop' | 'escapes', explanation, witness)"""
+        chain = self.chain(site)
+        loops_above = lambda i: [a for a, c in chain[i + 1:] if isinstance(a, _LOOPS) and any(c is x for x in a.body)]  # noqa: E731
+        for i, (par, child) in enumerate(chain):
+            if isinstance(par, ast.Try) and any(child is x for x in par.body):
+                for h in par.handlers:
+                    verdict = _catches(h, raised)
+                    if verdict == "no":
+                        continue
+                    if verdict == "maybe":
+                        continue      # catches a subclass / an unknown class: the rejection may pass it
+                    outer = loops_above(i)
+                    loop = outer[0] if outer else None
+                    wit = self.handler_leaves(h, loop)
+                    if wit is None:
+                        return ("swallowed", f"`except {u(h.type) if h.type is not None else ''}` at line {h.lineno} takes it and goes on"
+                                + (" with the loop" if loop is not None else ""), None)
+                    if loop is not None and any(isinstance(a, _LOOPS) for a, _c in chain[:i]):
+                        return ("ends-loop", f"the handler `except {u(h.type) if h.type is not None else ''}` at line {h.lineno} "
+                                "lies outside the receive loop: catching the rejection there ends the loop all the same", wit)
+                    return ("ends-loop" if loop is not None or any(isinstance(a, _LOOPS) for a, _c in chain[:i]) else "escapes",
+                            f"the handler `except {u(h.type) if h.type is not None else ''}` at line {h.lineno} does not go on "
+                            + ("with the loop (it re-raises, breaks or returns)" if loop is not None else
+                               "(it lies outside the receive loop / re-raises)"), wit)
+            if isinstance(par, _LOOPS) and any(child is x for x in par.body):
+                # nothing inside the loop body took it: it leaves the loop, whoever catches it further out
+                later = [h for a, c in chain[i + 1:] if isinstance(a, ast.Try) and any(c is x for x in a.body)
+                         for h in a.handlers if _catches(h, raised) == "yes"]
+                return ("ends-loop", (f"the only handler that takes it (`except {u(later[0].type) if later[0].type is not None else ''}`, "
+                                      f"line {later[0].lineno}) lies OUTSIDE the loop: the loop has ended when it runs" if later else
+                                      "no handler between the call and the loop takes it"), None)
+        return ("escapes", "no handler in this function takes it", None)
+
+
+def check_reject(run: Run, prog: Program) -> None:  # noqa: C901
+    """C09.REJECT: a rejected (too old) sample must not stop later updates from being applied: the exception update()
+    raises on its rejection path cannot leave a loop that feeds the ring buffer of a MovingWindow."""
+    mw = prog.cls(f"{MW}:MovingWindow")
+    buf = f"self.{_ring_attr(prog)}"
+    up = prog.func(f"{BUF}:OrderedRingBuffer.update")
+    raised = _rejection_classes(run, prog)
+    _floor(run, up.qual, bool(raised), f"{up.qual}: no rejection path (raise under the too-old test) found")
+    if not raised:
+        return
+    # every function of the class, nested ones too: (node, qualified name, names it can be called / passed by)
+    funcs: list[tuple[ast.AST, str, set[str]]] = []
+    for m in mw.methods.values():
+        funcs.append((m.node, m.qual, {f"self.{m.name}"}))
+        for x in ast.walk(m.node):
+            if isinstance(x, (ast.FunctionDef, ast.AsyncFunctionDef)) and x is not m.node:
+                funcs.append((x, f"{m.qual}.<locals>.{x.name}", {x.name}))
+    file = next(iter(mw.methods.values())).file
+
+    def own_nodes(fn: ast.AST) -> list[ast.AST]:
+        return list(walk_no_nested(fn))
+
+    def aliases(fn: ast.AST) -> set[str]:
+        return {buf} | {t.id for s in own_nodes(fn) if isinstance(s, ast.Assign) and u(s.value) == buf
+                        for t in s.targets if isinstance(t, ast.Name)}
+
+    decided_sites = 0
+    seen: set[tuple[int, int]] = set()
+    work: list[tuple[ast.AST, str, ast.AST, str]] = []     # (function, its name, raising expression, what it is)
+    for fn, qual, _names in funcs:
+        al = aliases(fn)
+        for c in own_nodes(fn):
+            if isinstance(c, ast.Call) and isinstance(c.func, ast.Attribute) and c.func.attr == "update" \
+                    and u(c.func.value) in al:
+                work.append((fn, qual, c, f"`{u(c)[:60]}`"))
+    if not work:
+        raise AnalysisError(f"C09.REJECT: no call of the ring buffer's update() found in {mw.qual}")
+    while work:
+        fn, qual, site, what = work.pop(0)
+        if (id(fn), id(site)) in seen:
+            continue
+        seen.add((id(fn), id(site)))
+        run.analysed(qual)
+        esc = _Escape(fn, file)
+        for exc in sorted(raised):
+            top = next((a for a, c in esc.chain(site) if isinstance(a, _LOOPS) and any(c is x for x in a.body)), None)
+            if isinstance(site, ast.Call) and method_call(site, None, "update") and esc.pretested(site, buf, top):
+                decided_sites += 1
+                run.ok("C09.REJECT", f"{qual}: {what} cannot be rejected (timestamp tested against the oldest slot first)")
+                continue
+            verdict, why, wit = esc.decide(site, exc)
+            if verdict == "swallowed":
+                decided_sites += 1
+                run.ok("C09.REJECT", f"{qual}: {exc} of {what} does not end the feeding loop", why)
+            elif verdict == "ends-loop":
+                decided_sites += 1
+                run.violation(
+                    "C09.REJECT", qual, f"{exc} raised by {what} leaves the loop that feeds the window",
+                    f"OrderedRingBuffer.update() rejects a sample older than the window with `raise {exc}`; at {what} inside the "
+                    f"receive loop of {qual.split(':')[-1]} {why}.  One late sample therefore ends the window's update task: "
+                    "every later sample is lost and the window silently stops following its source (the error only "
+                    "surfaces when the window is stopped), although the property demands that a rejected update leaves "
+                    "the map able to take the following ones.  Accepted: a handler for that class (or a superclass) "
+                    "around the call INSIDE the loop body that neither re-raises nor breaks nor returns, or a test of the "
+                    "sample's timestamp against oldest_timestamp before the call; a try around the whole loop, a handler "
+                    "for another class, or one that re-raises end the loop all the same",
+                    node=site, file=file, path=wit)
+            else:
+                # it leaves this function: follow it to the callers inside the class; a function handed on as a
+                # callback is run by someone else
+                name = next(n for f, _q, n in funcs if f is fn)
+                handed = []
+                for g, gq, _n in funcs:
+                    gp = _parents(g)
+                    for x in own_nodes(g):
+                        if isinstance(x, ast.Call) and u(x.func) in name:
+                            work.append((g, gq, x, f"`{u(x)[:60]}` (which lets the {exc} of {what} through)"))
+                        elif isinstance(x, (ast.Attribute, ast.Name)) and u(x) in name and isinstance(x.ctx, ast.Load):
+                            par = gp.get(id(x))
+                            if not (isinstance(par, ast.Call) and par.func is x):
+                                handed.append((gq, par))
+                for gq, par in handed:
+                    run.note(f"C09.REJECT not decided for {qual}: {what} lets {exc} through and the function is handed on as a "
+                             f"callback in {gq} (`{u(par)[:70] if par is not None else ''}`): the resampler collects the "
+                             "exceptions of its sinks per tick and raises ResamplingError, which would end the resampling "
+                             "task -- but resampled timestamps only move forward, so the too-old rejection cannot occur on "
+                             "that route as long as the resampler is the window's only writer (not decided statically)")
+    if not decided_sites:
+        raise AnalysisError(f"C09.REJECT: no call of the ring buffer's update() inside a receive loop of {mw.qual} could be decided")
+
+
 _GUARD = (
     "        if (\n            timestamp < self._timestamp_oldest\n"
     "            and self._timestamp_oldest != self._TIMESTAMP_MAX\n        ):\n"
@@ -2404,6 +2812,15 @@ _MOVE = (
     "        self._timestamp_newest = max(self._timestamp_newest, timestamp)\n"
     "        self._timestamp_oldest = self._timestamp_newest - (\n"
     "            self._full_time_range - self._sampling_period\n        )\n\n")
+
+_TRY_UPDATE = (
+    "                    try:\n                        self._buffer.update(sample)\n"
+    "                    except IndexError:\n"
+    "                        # The ring buffer rejects samples that are older than the\n"
+    "                        # window.  That must not end the window's update task.\n"
+    "                        _logger.warning(\n"
+    "                            \"Dropping sample that is too old for the window: %s\", sample\n"
+    "                        )\n")
 
 CONTROLS = [
     ("slot number counted from the UNIX epoch", BUF,
@@ -2546,6 +2963,34 @@ CONTROLS = [
     ("new buffer claims a written slot", BUF,
      "        self._timestamp_newest: datetime = self._TIMESTAMP_MIN\n",
      "        self._timestamp_newest: datetime = self._TIMESTAMP_MAX\n", "C09.CONF"),
+    # ---- controls for the round-6 clauses (gap test on the slot read; the window's own reports)
+    ("at() asks the gap list about the raw key", MW,
+     "            if self._buffer.is_missing(self._buffer.normalize_timestamp(key)):\n",
+     "            if self._buffer.is_missing(key):\n", "C09.VALID"),
+    ("at() asks the gap list about the neighbouring slot", MW,
+     "            if self._buffer.is_missing(self._buffer.normalize_timestamp(key)):\n",
+     "            if self._buffer.is_missing(self._buffer.normalize_timestamp(key) + self._buffer.sampling_period):\n",
+     "C09.VALID"),
+    ("window reports the covered count as its valid count", MW,
+     "        return self._buffer.count_valid()\n\n    def count_covered",
+     "        return self._buffer.count_covered()\n\n    def count_covered", "C09.COUNT"),
+    ("window reports the valid count as its covered count", MW,
+     "        return self._buffer.count_covered()\n\n    @overload",
+     "        return self._buffer.count_valid()\n\n    @overload", "C09.COUNT"),
+    ("window reports the newest slot as its oldest", MW,
+     "        return self._buffer.oldest_timestamp\n", "        return self._buffer.newest_timestamp\n", "C09.COUNT"),
+    # ---- controls for C09.REJECT (finding F23: a rejected sample ended the window's update task)
+    ("rejection of a late sample ends the receive loop", MW, _TRY_UPDATE, "                    self._buffer.update(sample)\n",
+     "C09.REJECT"),
+    ("rejection caught around the whole receive loop", MW, _TRY_UPDATE + "\n        except asyncio.CancelledError:\n",
+     "                    self._buffer.update(sample)\n\n        except IndexError:\n"
+     "            _logger.warning(\"Dropping sample\")\n        except asyncio.CancelledError:\n", "C09.REJECT"),
+    ("rejection handler re-raises", MW, _TRY_UPDATE, _TRY_UPDATE + "                        raise\n", "C09.REJECT"),
+    ("handler for another exception class", MW, "                    except IndexError:\n",
+     "                    except KeyError:\n", "C09.REJECT"),
+    ("window query drops the caller's fill value", MW,
+     "            start, end, force_copy=force_copy, fill_value=fill_value\n",
+     "            start, end, force_copy=force_copy\n", "C09.COUNT"),
 ]
 
 
@@ -2556,7 +3001,7 @@ def _rules_for(expect: str) -> Any:
         check_valid_window(run, prog)   # the emptiness-guard operands are a C09.NORM obligation decided there
     return {"C09.NORM": norm, "C09.VALID": check_valid, "C09.GAP": check_gaps, "C09.IDX": check_idx,
             "C09.STORE": check_store, "C09.FETCH": check_fetch, "C09.COUNT": check_count,
-            "C09.NONE": check_none, "C09.CONF": check_conf}[expect]
+            "C09.NONE": check_none, "C09.CONF": check_conf, "C09.REJECT": check_reject}[expect]
 
 
 def run_rules(run: Run, prog: Program) -> None:
@@ -2569,6 +3014,7 @@ def run_rules(run: Run, prog: Program) -> None:
     check_count(run, prog)
     check_none(run, prog)
     check_conf(run, prog)
+    check_reject(run, prog)
 
 
 def check(run: Run, prog: Program, tier: str) -> str:
@@ -2577,7 +3023,8 @@ def check(run: Run, prog: Program, tier: str) -> str:
              "before slot-index computation are provably on the slot grid")
     run.rule("C09.VALID", "update() rejects too-old timestamps before any mutation; window() clamps "
              "both ends and checks emptiness before computing slot indices and fills gaps before "
-             "returning; MovingWindow.at guards every buffer read with a two-sided range check")
+             "returning; MovingWindow.at guards every buffer read with a two-sided range check and a gap test "
+             "on the normalised timestamp of the slot it reads")
     run.rule("C09.GAP", "every gap recorded by update() starts no later than the first unwritten slot; a "
              "missing sample records a gap; _fill_gaps writes only inside [0, len(window)]")
     run.rule("C09.IDX", "slot number = round((normalised T - alignment origin) / sampling period), the grid "
@@ -2588,13 +3035,18 @@ def check(run: Run, prog: Program, tier: str) -> str:
     run.rule("C09.FETCH", "_wrapped_buffer_window returns buffer[s:e], or buffer[s:] followed by buffer[:e] when the "
              "ring wraps (e <= s), in the buffer's container type, as a copy when requested")
     run.rule("C09.COUNT", "has_value, time bounds, oldest/newest timestamp, get_timestamp, covered range and "
-             "count_covered / count_valid report what the bounds and the gap list say")
+             "count_covered / count_valid report what the bounds and the gap list say; MovingWindow's count_valid / "
+             "count_covered / oldest / newest timestamp are the ring buffer's observer of the same role")
     run.rule("C09.NONE", "a value established to be None on a path is not used afterwards on that path")
     run.rule("C09.CONF", "a new ring buffer is the empty map it was configured to be (grid origin = alignment point, "
              "step = sampling period, range = capacity * period, sentinel bounds, no gaps), and whoever builds one "
              "(MovingWindow) hands it its own alignment point, the period of the samples it will write and "
              "ceil(span / that period) slots")
+    run.rule("C09.REJECT", "the exception update() raises for a too-old sample cannot leave a loop that feeds a MovingWindow's "
+             "ring buffer: it is taken by a handler inside the loop body that goes on with the loop, or excluded by a test "
+             "of the timestamp against the oldest slot (a rejected update must not stop later updates from being applied)")
     run_rules(run, prog)
+    run.floor("C09.REJECT", 1)
     run.floor("C09.CONF", 10)
     run.floor("C09.IDX", 3)
     run.floor("C09.STORE", 4)
